@@ -27,7 +27,7 @@ def one(seed_dir: str) -> dict:
     sid = sd.name
     scratch = Path(tempfile.mkdtemp(prefix=f"sweep_{sid}_", dir='/tmp'))
     try:
-        shutil.copytree('/repo/src', scratch / 'src', ignore=shutil.ignore_patterns('__pycache__', '*.pyc', '*.egg-info'))
+        shutil.copytree(os.environ.get('EMSVERIF_SWEEP_BASE', '/repo/src'), scratch / 'src', ignore=shutil.ignore_patterns('__pycache__', '*.pyc', '*.egg-info'))
         r = subprocess.run(['git', 'apply', str(sd / 'patch.diff')], cwd=scratch, capture_output=True, text=True)
         how = 'git apply'
         if r.returncode != 0:
@@ -67,8 +67,15 @@ def main():
     bdir = VERIF / 'seeded' / 'benign'
     benign = sorted(str(p) for p in bdir.iterdir() if (p / 'patch.diff').exists() and (not args or p.name in args)) if bdir.exists() else []
     seeds = seeds + benign
-    with ProcessPoolExecutor(max_workers=jobs) as ex:
-        results = list(ex.map(one, seeds))
+    # one snapshot of /repo/src for the whole sweep: /repo may be edited while it runs
+    base = Path(tempfile.mkdtemp(prefix='sweep_base_', dir='/tmp'))
+    shutil.copytree('/repo/src', base / 'src', ignore=shutil.ignore_patterns('__pycache__', '*.pyc', '*.egg-info'))
+    os.environ['EMSVERIF_SWEEP_BASE'] = str(base / 'src')
+    try:
+        with ProcessPoolExecutor(max_workers=jobs) as ex:
+            results = list(ex.map(one, seeds))
+    finally:
+        shutil.rmtree(base, ignore_errors=True)
     bnames = {Path(b).name for b in benign}
     write = not args
     for r in results:
